@@ -105,11 +105,14 @@ def run_case(case):
 
     app = App()
 
+    fired = []
+
     def mkev(nm, by, how):
         tokc[0] += 1
         tok = tokc[0]
         ev = Event.create('e%d' % nm, tok)
         ev.success = True
+        fired.append(ev)
         log.append([5, tok, nm, by, how])
         return ev, tok
 
@@ -231,7 +234,8 @@ def run_case(case):
     except Exception:
         ntasks = len(tasks)
     return {'log': log, 'roots': [[tok, enc_value(v), 1 if v.errors else 0] for tok, v in rootvals],
-            'residue': kinds[:3] + [ntasks, len(app)], 'other': kinds[3], 'sched': sched}
+            'residue': kinds[:3] + [ntasks, len(app), len([e for e in fired if getattr(e, 'waitingHandlers', 0) != 0])],
+            'other': kinds[3], 'sched': sched}
 
 
 # ------------------------------------------------------------------------------------- case generation
@@ -582,10 +586,6 @@ def check_trace(case, obs):
             elif not any(tr.fired[tok][0] == s[4][1] for s in sus if resolved[(s[0], s[1], s[2])] is None):
                 bad.append(msg)
             continue
-        if tok in blocked:
-            if not succ:
-                stuck_fail.append('instance %d never completed although all its handlers ended (one of them raised in a generator)' % tok)
-            continue
         if not errs:
             if len(succ) != 1:
                 bad.append('instance %d finished without error but e_success was dispatched %d times' % (tok, len(succ)))
@@ -601,11 +601,14 @@ def check_trace(case, obs):
     legit_waiting = len([1 for (tok, i, k, idx, st, c0) in sus
                          if resolved[(tok, i, k)] is None and st[0] == 'wn' and st[2] is None
                          and not [1 for j, e in tr.entries[tok] if e[0] in (2, 3, 8) and e[2] == i and e[3] == k]])
-    exp_res = [legit_waiting, legit_waiting, 0, 0, 0]
+    legit_inst = len(set(tok for (tok, i, k, idx, st, c0) in sus
+                         if resolved[(tok, i, k)] is None and st[0] == 'wn' and st[2] is None
+                         and not [1 for j, e in tr.entries[tok] if e[0] in (2, 3, 8) and e[2] == i and e[3] == k]))
+    exp_res = [legit_waiting, legit_waiting, 0, 0, 0, legit_inst]
     if res != exp_res or obs.get('other'):
-        msg = 'residue at quiescence: temporary handlers [name, name_done, generate_events] = %r, tasks = %d, queue = %d (expected %r)' % (
-            res[:3], res[3], res[4], exp_res)
-        if unresumed and res == [legit_waiting, legit_waiting + unresumed, 0, 0, 0] and not obs.get('other'):
+        msg = ('residue at quiescence: temporary handlers [name, name_done, generate_events] = %r, tasks = %d, queue = %d, '
+               'events still holding waitingHandlers = %d (expected %r)' % (res[:3], res[3], res[4], res[5], exp_res))
+        if unresumed and res[:5] == [legit_waiting, legit_waiting + unresumed, 0, 0, 0] and not obs.get('other'):
             stuck_fail.append(msg)
         else:
             bad.append(msg)
@@ -625,8 +628,8 @@ class C06(Prop):
     trusted_base = ['hand-written model Model/KTasks.v (of the code with fixes/C06_*.patch applied) tied to the repo by this correspondence run',
                     'python oracle in harness/c06.py (reads only the log written by the scripted handlers, root Values, handler/task tables)']
     assumptions = ['one component / one channel; user handlers have distinct priorities above the temporary handlers',
-                   'liveness (the caller IS eventually resumed) is checked by the oracle on the generated programs, not proved',
-                   'a generator handler that raises never finishes its event (open finding C06-gen-raise, root cause shared with C04)']
+                   'liveness (the caller IS eventually resumed) and "only after the last handler step of the callee" are checked by the '
+                   'oracle on the generated programs, not proved; the theorems hold under bad = false (checked per case by K)']
 
     def __init__(self):
         self.stats = {}
